@@ -72,3 +72,16 @@ Proof.
   cbv zeta. apply negb_true_iff. apply andb_false_iff. left.
   simpl. apply Rltb_false. exact H.
 Qed.
+
+(** ** where the hypothesis [narrow_implies_aabb_overlap] comes from: if every collider's box
+    encloses its shape (C04) and the narrow phase only answers "collision" when the two shapes
+    share a point, colliding colliders have overlapping boxes *)
+Definition inbox (b : box R) (x y z : R) : Prop :=
+  bx0 _ b <= x <= bx1 _ b /\ by0 _ b <= y <= by1 _ b /\ bz0 _ b <= z <= bz1 _ b.
+
+Lemma enclosing_boxes_overlap bA bB x y z :
+  inbox bA x y z -> inbox bB x y z -> overlap R Rleb bA bB = true.
+Proof.
+  intros (Hx & Hy & Hz) (Hx' & Hy' & Hz'). unfold overlap.
+  rewrite !andb_true_iff, !Rleb_true. lra.
+Qed.
